@@ -37,7 +37,8 @@ func TestMain(m *testing.M) {
 		">=2 of {comment, continuation, bracket line break, semicolon, CRLF, tab indentation}; for mutations = the reference parser reached a verdict. Distinct by text.",
 		"'not' binds between 'and' and the comparisons; + - ~ apply to a primary expression; conditional and lambda are never operands without parentheses (Python 3 reading of the ambiguous grammar)",
 		"a tab in indentation advances to the next multiple of 8; only indentation strings on which every tab convention agrees, or a single tab within the first 8 columns, are generated",
-		"not generated (spec silent or at odds with the implementation): octal/hex escapes above 127 in text strings, \\<quote> in raw strings, int literals like 00, out-of-range floats, surrogate escapes, a[1,]",
+		"not generated (spec silent or at odds with the implementation): octal/hex escapes above 127 in text strings, \\<quote> in raw strings, int literals like 00, out-of-range floats, a[1,]",
+		"an escape that names a surrogate code point (all 2048 x \\u/\\U x text/bytes, exhaustive) must be rejected with an error positioned inside the literal, or keep exactly that code point; it may not silently become another string",
 		"bytes literals, the rb prefix and \\u \\U escapes follow the package documentation and the property text; doc/spec.md does not describe them",
 		"rejection of ungrammatical text rests on the hand-written reference parser and on one-token mutations")
 	vk.Main(m, "C14")
